@@ -46,6 +46,8 @@ func createCron(node gen.Node) *cron {
 	now := time.Now()
 	next := now.Add(time.Minute).Truncate(time.Minute)
 	in := next.Sub(now)
+	// jobs added before the first tick are matched against it
+	c.next = next
 
 	c.timer = time.AfterFunc(in, func() {
 		if node.IsAlive() == false {
